@@ -85,7 +85,12 @@ class Report:
                            'trace': o.trace, 'repo': self.repo}, f, indent=1, default=str)
             print(f"  violation: [{o.rule}] {o.loc} {o.where}: {o.construct}\n      {o.detail}")
             lines.append(f"VIOLATION property={self.prop} replay={p}")
-        for o, k in known_hits:
+        printed = set()
+        for o, k in known_hits:          # one line per listed finding (several sites may realise the same one)
+            kid = json.dumps(k.get('key'), sort_keys=True)
+            if kid in printed:
+                continue
+            printed.add(kid)
             print(f"KNOWN-FINDING: property={self.prop} {o.rule.split(' ')[0]} {o.where} `{o.construct}` {k.get('what', o.detail)}")
         for e in self.errors:
             print(f"ANALYSIS-ERROR property={self.prop} {e}")
